@@ -7,7 +7,7 @@
 //   counters <threads> <calls> <seed>                        shared SpaceInformation: checkMotion / isValid
 //   gnat <threads> <n> <queries> <k> <seed>                  shared NearestNeighborsGNAT: nearest / nearestK / nearestR
 //   rng <threads> <per>                                      concurrent RNG construction (seed stream)
-//   spaces <threads> <per>                                   concurrent StateSpace creation / destruction
+//   spaces <threads> <per> <list 0|1>                        concurrent StateSpace creation / destruction (+ StateSpace::List)
 //   solutions <adders> <readers> <per>                       addSolutionPath / getSolutions on one ProblemDefinition
 //   logging <threads> <per>                                  OMPL_INFORM + handler / level changes
 //   terminate <pollers> <polled 0|1>                         terminate() from another thread
@@ -382,7 +382,7 @@ namespace
     std::string opSpaces(const std::vector<std::string> &t)
     {
         size_t i = 1;
-        unsigned threads = needN(t, i), per = needN(t, i);
+        unsigned threads = needN(t, i), per = needN(t, i), withList = needN(t, i);
         size_t before = registrySize();
         std::vector<std::vector<std::string>> names(threads);
         std::atomic<unsigned long> listed{0};
@@ -410,7 +410,7 @@ namespace
                     for (unsigned s = 0; s < c2->getSubspaceCount(); ++s)
                         names[th].push_back(c2->getSubspace(s)->getName());
                 names[th].push_back(sp->getName());
-                if (c % 16 == 0)
+                if (withList && c % 16 == 0)
                 {
                     std::ostringstream os;
                     ob::StateSpace::List(os);
@@ -427,7 +427,7 @@ namespace
                 ++total;
                 distinct.insert(s);
             }
-        return "spaces threads=" + std::to_string(threads) + " created=" + std::to_string(total) +
+        return "spaces threads=" + std::to_string(threads) + " list=" + std::to_string(withList) + " created=" + std::to_string(total) +
                " distinct_names=" + std::to_string(distinct.size()) + " registry_before=" + std::to_string(before) +
                " registry_after=" + std::to_string(after);
     }
